@@ -6,7 +6,7 @@ discipline of the downloader (`DisciplinedRun`: Schedule is called with `from` =
 headers accepted so far; the window length passed to a reservation is at most the cache length).
 `batches` is the list of batches `Results` returned along the run.
 -/
-import YouVerif.C18.ProofsHonest
+import YouVerif.C18.ProofsGood
 namespace YouVerif.C18
 
 /-- Results never hands out more than `maxResultsProcess` items. -/
@@ -102,19 +102,21 @@ theorem body_matches (cacheLen maxProc : Nat) (fast : Bool) (offset : Nat) (ops 
 
 /-- **No task lost, none duplicated.**  For each kind (bodies; receipts in fast/light mode) a header occurs at most
 once across the task queue, all in-flight requests and the done pool, and only if it is scheduled and not yet
-returned.  As long as no operation answered errInvalidChain (`failed = false`; the downloader aborts the sync on
-that error), every scheduled, not yet returned header occurs exactly once: it is in exactly one of
-task queue | the request of exactly one peer | done pool. -/
+returned; and every scheduled, not yet returned header occurs exactly once: it is in exactly one of
+task queue | the request of exactly one peer | done pool.  (Unconditional: by `never_invalid_chain` the only
+operation outcome that drops tasks — errInvalidChain in reserveHeaders — cannot occur under the call discipline.) -/
 theorem no_task_lost (cacheLen maxProc : Nat) (fast : Bool) (offset : Nat) (ops : List Op)
     (hd : DisciplinedRun (init cacheLen maxProc fast offset) ops) :
     let s := run (init cacheLen maxProc fast offset) ops
     let out := (batches (init cacheLen maxProc fast offset) ops).flatten
     (∀ k h, occ (s.pools k) h ≤ 1) ∧
     (∀ k h, 0 < occ (s.pools k) h → h ∈ s.sched.drop out.length) ∧
-    (s.failed = false → ∀ k, (k = .body ∨ fast = true) → ∀ h ∈ s.sched.drop out.length, occ (s.pools k) h = 1) := by
+    (∀ k, (k = .body ∨ fast = true) → ∀ h ∈ s.sched.drop out.length, occ (s.pools k) h = 1) := by
   intro s out
-  have hi : Inv s := inv_run (inv_init _ _ _ _) ops hd
-  have hf : Full s := full_run (inv_init _ _ _ _) (full_init _ _ _ _) ops hd
+  have hg : Good s := good_run (good_init _ _ _ _) ops hd
+  have hi : Inv s := hg.inv
+  have hf : Full s := hg.full
+  have hfail : s.failed = false := hg.ok
   have hret : s.ret = out := by
     have := ret_run (init cacheLen maxProc fast offset) ops
     rw [show (init cacheLen maxProc fast offset).ret = [] from rfl, List.nil_append] at this
@@ -140,7 +142,7 @@ theorem no_task_lost (cacheLen maxProc : Nat) (fast : Bool) (offset : Nat) (ops 
   refine ⟨hi.occLe, ?_, ?_⟩
   · intro k h hp
     rw [← hret]; exact (mem_drop_iff hi h).mpr (hi.occSched k h hp)
-  · intro hfail k hact h hm
+  · intro k hact h hm
     rw [← hret] at hm
     obtain ⟨hs, hlo⟩ := (mem_drop_iff hi h).mp hm
     have h1 := hf hfail k (by unfold Active; rw [hcfg]; exact hact) h hs hlo
@@ -180,8 +182,7 @@ def honestRounds (p limit count : Nat) : Nat → State → State
 /-- FULL progress statement (not proved here; sampled by the correspondence harness, whose final drain performs
 exactly these rounds on the real queue and the model and demands at least one returned block per round):
 from every reachable state, one honest round per outstanding block hands the whole scheduled chain to the importer.
-Missing for a proof: the throttle/window counting argument (`never_invalid_chain_statement`) and the
-composition of the four steps of a round. -/
+Missing for a proof: the composition of the four steps of a round. -/
 def progress_statement : Prop :=
   ∀ (cacheLen maxProc : Nat) (fast : Bool) (offset : Nat) (ops : List Op),
     DisciplinedRun (init cacheLen maxProc fast offset) ops → 0 < cacheLen → 0 < maxProc →
@@ -190,13 +191,54 @@ def progress_statement : Prop :=
       lget s.lacking p = [] →
       ((honestRounds p limit count (s.sched.length - s.ret.length) s).ret.map (·.header) = s.sched)
 
-/-- FULL statement (not proved here; the harness' oracle reports any errInvalidChain of the real queue under
-disciplined calls as a violation): the index checks of reserveHeaders and deliver never fire, i.e. throttling by
-`resultSlots` keeps every popped header inside the result window. -/
-def never_invalid_chain_statement : Prop :=
-  ∀ (cacheLen maxProc : Nat) (fast : Bool) (offset : Nat) (ops : List Op),
-    DisciplinedRun (init cacheLen maxProc fast offset) ops →
-    (run (init cacheLen maxProc fast offset) ops).failed = false
+/-- **The window check never fires.**  Under the call discipline neither reserveHeaders nor deliver ever answers
+errInvalidChain: throttling by `resultSlots` keeps every popped header inside the result window, and every header in
+flight has a result slot.  (Counting argument: free slots ≤ queued tasks inside the window + window positions beyond
+the scheduled chain; the task queue is sorted; allocated slots form a prefix of the window.) -/
+theorem never_invalid_chain (cacheLen maxProc : Nat) (fast : Bool) (offset : Nat) (ops : List Op)
+    (hd : DisciplinedRun (init cacheLen maxProc fast offset) ops) :
+    (run (init cacheLen maxProc fast offset) ops).failed = false :=
+  (good_run (good_init _ _ _ _) ops hd).ok
+
+/-- per-operation form of `never_invalid_chain`: the answers themselves are never errInvalidChain -/
+theorem reserve_never_invalid_chain (cacheLen maxProc : Nat) (fast : Bool) (offset : Nat) (ops : List Op)
+    (hd : DisciplinedRun (init cacheLen maxProc fast offset) ops) (k : Kind) (limit peer count : Nat)
+    (hl : limit ≤ cacheLen) :
+    (reserve (run (init cacheLen maxProc fast offset) ops) k limit peer count).2.err ≠ Err.invalidchain := by
+  have hg := good_run (good_init _ _ _ _) ops hd
+  have hcfg : (run (init cacheLen maxProc fast offset) ops).cfg.cacheLen = cacheLen := by
+    have : ∀ (t : State) (l : List Op), (run t l).cfg = t.cfg := by
+      intro t l
+      induction l generalizing t with
+      | nil => rfl
+      | cons op l ih =>
+        show (run (step t op) l).cfg = t.cfg
+        rw [ih]
+        cases op with
+        | schedule hs f => exact (scheduleLoop_frame hs f t).1
+        | reserve k l p c => exact (reserve_frame t k l p c).cfg
+        | deliver k p bs => exact (deliver_frame t k p bs).cfg
+        | cancel k p => rfl
+        | expire k ps => rfl
+        | revoke p => rfl
+        | results => rfl
+    rw [this]; rfl
+  have h2 := (reserve_ext hg.inv (fullU_of_full hg.full hg.ok) hg.ext hg.ok k limit peer count (by rw [hcfg]; exact hl)).2
+  intro herr
+  have := reserve_err_failed _ k limit peer count herr
+  rw [h2] at this; cases this
+
+/-- the three structural invariants behind `never_invalid_chain`, for every disciplined run:
+headers in flight have result slots; the task queues are sorted by number; the allocated slots are a prefix of the window -/
+theorem window_invariants (cacheLen maxProc : Nat) (fast : Bool) (offset : Nat) (ops : List Op)
+    (hd : DisciplinedRun (init cacheLen maxProc fast offset) ops) :
+    let s := run (init cacheLen maxProc fast offset) ops
+    (∀ k h, h ∈ pendAll (s.pools k).pend → (cget s.cache h.num).isSome = true) ∧
+    (∀ k, (s.pools k).queue.Pairwise (fun a b => a.num ≤ b.num)) ∧
+    (∀ n, s.offset ≤ n → (cget s.cache (n + 1)).isSome = true → (cget s.cache n).isSome = true) := by
+  intro s
+  have hg := good_run (good_init _ _ _ _) ops hd
+  exact ⟨hg.ext.pendCached, hg.ext.sorted, hg.ext.pref⟩
 
 /-- PARTIAL (progress, last step): once the block at the head of the window is complete, `Results` returns it. -/
 theorem progress_results_partial (s : State) (r : Result) (hc : 0 < s.cfg.cacheLen) (hm : 0 < s.cfg.maxProc)
@@ -241,7 +283,7 @@ theorem progress_honest_delivery_partial (s : State) (k : Kind) (p : Nat) (hs : 
   subst r2
   simp [r3, DAcc.start]
 
-/-- PARTIAL (the lower half of `never_invalid_chain_statement`): no task below the result window is ever queued,
+/-- (lower half of `never_invalid_chain`, kept for reference): no task below the result window is ever queued,
 in flight or done, so the `index < 0` check can not fire. -/
 theorem tasks_not_below_window_partial (cacheLen maxProc : Nat) (fast : Bool) (offset : Nat) (ops : List Op)
     (hd : DisciplinedRun (init cacheLen maxProc fast offset) ops) :
